@@ -862,15 +862,15 @@ func parseSpecSexp(s string) (*Spec, error) {
 	}
 	sp := &Spec{Query: x.List[1].Atom, Mutation: x.List[2].Atom, Subscription: x.List[3].Atom}
 	for _, t := range x.List[4:] {
-		if len(t.List) != 8 {
+		if len(t.List) != 9 {
 			return nil, fmt.Errorf("bad type %s", t.String())
 		}
-		ts := TypeSpec{Kind: t.List[0].Atom, Name: t.List[1].Atom, Req: atoms(t.List[2]), Ifaces: atoms(t.List[4]), Members: atoms(t.List[5]), Values: atoms(t.List[6]), Inputs: args(t.List[7])}
+		ts := TypeSpec{Kind: t.List[0].Atom, Name: t.List[1].Atom, Req: atoms(t.List[2]), Ifaces: atoms(t.List[4]), Members: atoms(t.List[5]), Values: atoms(t.List[6]), Inputs: args(t.List[7]), DepValues: atoms(t.List[8])}
 		for _, f := range t.List[3].List {
-			if len(f.List) != 4 {
+			if len(f.List) != 5 {
 				return nil, fmt.Errorf("bad field %s", f.String())
 			}
-			ts.Fields = append(ts.Fields, FieldSpec{Name: f.List[0].Atom, Type: f.List[1].Atom, Req: atoms(f.List[2]), Args: args(f.List[3])})
+			ts.Fields = append(ts.Fields, FieldSpec{Name: f.List[0].Atom, Type: f.List[1].Atom, Req: atoms(f.List[2]), Args: args(f.List[3]), Deprecated: f.List[4].Atom == "dep"})
 		}
 		sp.Types = append(sp.Types, ts)
 	}
